@@ -507,7 +507,11 @@ impl Deb822 {
                 }
                 i
             }
-            None => self.0.children().count(),
+            None => {
+                // appending: the separator must not merely terminate the last line
+                terminate_last_line(&self.0);
+                self.0.children().count()
+            }
         };
         self.0
             .splice_children(insertion_point..insertion_point, to_insert);
